@@ -151,6 +151,8 @@ func (c *Ctx) eval(env *Env, e ast.Expr) Val {
 			return tTrue
 		case "false":
 			return tFalse
+		case "nil":
+			return IfaceV{Ref: intLit(0)}
 		}
 		if v, ok := env.lookup(x.Name); ok {
 			return v
